@@ -50,7 +50,7 @@ func opKey(tx string, idx int) string { return fmt.Sprintf("%s:%d", tx, idx) }
 // template table: must mirror TxIns / TxOuts of Ledger.tla
 var txIns = map[string][]string{
 	"T1": {"F1:0"}, "T2": {"F1:0"}, "T3": {"T1:0"}, "T4": {"F2:0", "F2:0"}, "T5": {"X:0"},
-	"T6": {"F2:0"}, "T7": {"T1:1", "F2:0"},
+	"T6": {"F2:0"}, "T7": {"T1:1", "F2:0"}, "T9": {"F1:0"},
 	"R1": {"G1:0"}, "R2": {"G2:0"}, "R3": {"G3:0"}, "R4": {"G4:0"},
 }
 
@@ -68,9 +68,9 @@ type outT struct {
 
 var txOuts = map[string][]outT{
 	"T1": {{"A", false}, {"B", false}}, "T2": {{"B", false}}, "T3": {{"B", false}}, "T4": {{"A", false}},
-	"T5": {{"A", false}}, "T6": {{"A", false}, {"A", true}}, "T7": {{"A", false}},
+	"T5": {{"A", false}}, "T6": {{"A", false}, {"A", true}}, "T7": {{"A", false}}, "T9": {{"A", false}},
 }
-var txOrder = []string{"T1", "T2", "T3", "T4", "T5", "T6", "T7"}
+var txOrder = []string{"T1", "T2", "T3", "T4", "T5", "T6", "T7", "T9"}
 var owner = map[string]string{"F1:0": "K", "F2:0": "K", "X:0": "K"}
 
 func newWorld(opt stack.Options) (*world, error) {
@@ -181,6 +181,13 @@ func newWorld(opt stack.Options) (*world, error) {
 		tx, err := stack.Transfer(ins, os_, signers, uint64(len(t))*1000+uint64(t[1]))
 		if err != nil {
 			return nil, err
+		}
+		if t == "T9" {
+			// the same outpoint as T1 / T2, referenced with another sequence number
+			tx.Inputs()[0].Sequence = 1
+			if err := stack.Sign(tx, signers); err != nil {
+				return nil, err
+			}
 		}
 		w.txs[t] = tx
 		for i := range outs {
